@@ -159,6 +159,13 @@ def run_case(case, ctx):
                 if st.rbm_ph is st.rbm_am or set(storages(st.rbm_ph).values()) & set(storages(st.rbm_am).values()):
                     ctx.violation("phase-network-aliased", "phase and amplitude networks share storage", tags=tags)
 
+    # lists handed out belong to the caller: editing what `networks` returned changes nothing for this or any other state
+    got_names = st.networks
+    if isinstance(got_names, list) and i % 2 == 0:
+        got_names.reverse()
+        got_names.append("not-a-network")
+        ctx.count("returned_network_lists_edited")
+
     def probe():
         """changing one network never changes the other (both directions)"""
         if kind == "positive":
